@@ -27,3 +27,6 @@ WRAP int w_rp_subtract(RP* m, uint64_t amount) { try { m->subtract_and_keep_posi
 WRAP uint64_t w_rp_get(const RP* m, uint64_t key) { return m->get(key); }
 WRAP uint32_t w_rp_num_active(const RP* m) { return m->num_active_; }
 WRAP uint32_t w_rp_state(const RP* m, uint32_t i) { return m->states_[i]; }
+// state injection: the accumulated purge offset of a sketch (what earlier purges left behind)
+WRAP void w_fi_set_offset(FI* s, uint64_t off) { s->offset = off; }
+WRAP uint64_t w_fi_offset(const FI* s) { return s->offset; }
